@@ -1273,6 +1273,11 @@ impl Generatable for Expression
 						cstr!(""),
 					)
 				};
+				// The calling convention of a call must match that of its callee.
+				unsafe {
+					let callconv = LLVMGetFunctionCallConv(function);
+					LLVMSetInstructionCallConv(result, callconv);
+				}
 				Ok(result)
 			}
 			Expression::InlineBlock { statements, value } =>
